@@ -287,7 +287,7 @@ func (o OracleC04) After(x *Exec, op *Op, res *Res) {
 
 func (OracleC04) sumBound(x *Exec, s *Snap, denom string) {
 	a, ok := s.Assets[denom]
-	if !ok {
+	if !ok || x.PrecisionCollapsed(denom) {
 		return
 	}
 	sum := new(big.Int)
